@@ -7,14 +7,14 @@ set -u
 W=/tmp/verif-cov; rm -rf $W; mkdir -p $W
 LT=$(ls -d ~/.rustup/toolchains/nightly-x86_64-unknown-linux-gnu/lib/rustlib/x86_64-unknown-linux-gnu/bin)
 cd /verif/harness && cp /repo/Cargo.lock Cargo.lock
-CARGO_TARGET_DIR=$W/target RUSTFLAGS="-C instrument-coverage" CARGO_NET_OFFLINE=true cargo +nightly build --release --offline >/dev/null 2>&1 || { echo "coverage build failed"; exit 2; }
+LLVM_PROFILE_FILE=$W/build-%p.profraw CARGO_TARGET_DIR=$W/target RUSTFLAGS="-C instrument-coverage" CARGO_NET_OFFLINE=true cargo +nightly build --release --offline >/dev/null 2>&1 || { echo "coverage build failed"; exit 2; }
 (cd /verif/lean && lake build driver >/dev/null 2>&1)
 for p in C01 C02 C03 C04 C05 C06 C07 C08 C09 C10 C11 C12 C13 C14 C15 C16; do
   corpus=""; [ -d /verif/corpus/$p ] && corpus="--corpus /verif/corpus/$p"
   LLVM_PROFILE_FILE=$W/$p-%p.profraw timeout 900 $W/target/release/vharness $p --tier quick --seed ${VERIF_SEED:-1} \
     --driver /verif/lean/.lake/build/bin/driver --out $W/$p.json $corpus >/dev/null 2>&1
 done
-$LT/llvm-profdata merge -sparse $W/*.profraw -o $W/all.profdata
+$LT/llvm-profdata merge -sparse $W/C*.profraw -o $W/all.profdata
 SRC=$(ls /repo/src/*.rs /repo/src/algorithm/*.rs)
 $LT/llvm-cov report $W/target/release/vharness -instr-profile=$W/all.profdata $SRC 2>/dev/null | cut -c1-160
 echo; echo "lines never executed:"
